@@ -99,9 +99,12 @@ func (e *g4Endpoint) start() {
 	e.mux.Start()
 }
 
+// stop shuts the endpoint down the way Connection does on an error: the muxer first (a
+// Protocol.Stop() issued while the muxer's read loop is blocked on this protocol's full
+// receive channel would otherwise wait for the muxer), then the protocol.
 func (e *g4Endpoint) stop() {
-	e.proto.Stop()
 	e.mux.Stop()
+	e.proto.Stop()
 	for range e.mux.ErrorChan() {
 	}
 }
@@ -186,4 +189,25 @@ func (l *fpList) String() string {
 	l.mu.Lock()
 	defer l.mu.Unlock()
 	return "[" + strings.Join(l.fps, ",") + "]"
+}
+
+// newG4EndpointQ is newG4Endpoint with an explicit receive-queue size (0 = default).
+func newG4EndpointQ(conn *g4Conn, role protocol.ProtocolRole, sm protocol.StateMap, initial protocol.State,
+	handler protocol.MessageHandlerFunc, name string, recvQ int) *g4Endpoint {
+	e := &g4Endpoint{conn: conn, errCh: make(chan error, 10)}
+	e.mux = muxer.New(conn)
+	e.proto = protocol.New(protocol.ProtocolConfig{
+		Name:                name,
+		ProtocolId:          77,
+		ErrorChan:           e.errCh,
+		Muxer:               e.mux,
+		Mode:                protocol.ProtocolModeNodeToNode,
+		Role:                role,
+		MessageHandlerFunc:  handler,
+		MessageFromCborFunc: g4MsgFromCbor,
+		StateMap:            sm,
+		InitialState:        initial,
+		RecvQueueSize:       recvQ,
+	})
+	return e
 }
